@@ -8,7 +8,8 @@ COQ_FILES = ["Wire.v", "WireProofs.v", "Remote.v", "RemoteExec.v", "RemoteProofs
 THEOREMS = ["C17_up_exactly_once_in_order", "C17_unreachable_reported", "C17_fresh_attempt_after_unreachable",
             "C17_no_stale_entry_when_router_quiet", "C17_start_stop_idempotent", "C17_stopped_never_listens",
             "C17_no_blackhole", "C17_blackhole_pinned_refuted", "C17_blackhole_is_permanent",
-            "C17_connection_loss_drops_silently", "C17_oracle_holds_of_model"]
+            "C17_connection_loss_drops_silently", "C17_oracle_up_holds_for_every_drained_schedule",
+            "C17_oracle_holds_of_model"]
 RULE = ("(net) real engines with real remotes over loopback TCP in one process, addresses private to the harness process: "
         "'up' = k senders (goroutines, goroutines with a sender PID, actors) x n numbered messages over several recording "
         "actors on 1-2 peers plus requests across nodes, closed by per-sender fences; 'down' = messages for an address "
@@ -148,9 +149,10 @@ class Net(Part):
         if tier == "thorough":
             cs += [dict(kind="stop", calls=["start", "stop", "start"], engine_probe=True),
                    dict(kind="stop", calls=["start", "stop", "stop"], engine_probe=True)]
-        ups = [dict(kind="up", peers=1, targets=[[1, 0], [1, 1], [1, 2]], senders=[True, False, True, False], per=600, requests=8),
-               dict(kind="up", peers=2, targets=[[1, 0], [2, 0], [1, 1]], senders=[True, True, False], per=400, requests=4),
-               dict(kind="up", peers=1, targets=[[1, 0]], senders=[True, True, True, True], per=1000, requests=0),
+        big = tier != "quick"     # (the Coq side spends ~3 ms per received message just reading the observation)
+        ups = [dict(kind="up", peers=1, targets=[[1, 0], [1, 1], [1, 2]], senders=[True, False, True, False], per=600 if big else 300, requests=8),
+               dict(kind="up", peers=2, targets=[[1, 0], [2, 0], [1, 1]], senders=[True, True, False], per=400 if big else 200, requests=4),
+               dict(kind="up", peers=1, targets=[[1, 0]], senders=[True, True, True, True], per=1000 if big else 320, requests=0),
                dict(kind="up", peers=1, targets=[[1, 0]], senders=[False], per=200, requests=1)]
         nrand = 2 if tier == "quick" else 24
         for _ in range(nrand):
@@ -161,7 +163,7 @@ class Net(Part):
                 targets[0][0] = 2
             ns = rng.randint(1, 4)
             ups.append(dict(kind="up", peers=peers, targets=targets, senders=[rng.random() < 0.6 for _ in range(ns)],
-                            per=rng.randint(1, 900 if tier == "quick" else 1200), requests=rng.randint(0, 6)))
+                            per=rng.randint(1, 300 if tier == "quick" else 1200), requests=rng.randint(0, 6)))
         stops = []
         maxlen = 4 if tier == "quick" else 5
         for n in range(1, maxlen + 1):
